@@ -146,10 +146,23 @@ func runC06(c *Ctx, w *World, r *Report) {
 		} else if len(orders)+len(manual) != 2 {
 			bad = fmt.Sprintf("expected one binary.Write and one binary.Read, found %d", len(orders))
 		} else {
+			// one byte-order object on both sides: the package's own `endian` variable, or the same variable of
+			// encoding/binary named at both sites (binary.LittleEndian twice is as much one object as endian twice)
+			var first *ssa.Global
 			for i, o := range orders {
 				u, ok := o.(*ssa.UnOp)
-				if !ok || u.Op != token.MUL || !isGlobal(u.X, "pbcmpl", "endian") {
+				var g *ssa.Global
+				if ok && u.Op == token.MUL {
+					g, _ = u.X.(*ssa.Global)
+				}
+				if g == nil || !(isGlobal(g, "pbcmpl", "endian") || g.Pkg != nil && g.Pkg.Pkg.Path() == "encoding/binary") {
 					bad = where[i] + " does not use the package's `endian` variable (writer and reader may disagree on byte order)"
+					continue
+				}
+				if first == nil {
+					first = g
+				} else if g != first {
+					bad = where[i] + " uses " + g.Name() + " where the other side uses " + first.Name() + ": writer and reader disagree on the byte order"
 				}
 			}
 		}
